@@ -113,6 +113,8 @@ type Program struct {
 	Nodes   []*Node // filled by Number (index i holds node id i+1)
 	Root    *Node
 	Meta    map[string]interface{}
+
+	nodeFile []string
 }
 
 type Input struct {
@@ -148,20 +150,39 @@ func (n *Node) children() []*Node {
 }
 
 // Number assigns ids in post-order (children before parents) and fills p.Nodes.
+// The node tables of the source modules are appended to the main table (every
+// module once); an "imp" node carries the id of the imported module's root.
 func (p *Program) Number() {
 	p.Nodes = nil
+	p.nodeFile = nil
 	p.Root = Blk(p.Stmts...)
 	p.Root.T = "top"
-	var walk func(n *Node)
-	walk = func(n *Node) {
+	var walk func(n *Node, file string)
+	walk = func(n *Node, file string) {
 		for _, c := range n.children() {
-			walk(c)
+			walk(c, file)
 		}
 		p.Nodes = append(p.Nodes, n)
+		p.nodeFile = append(p.nodeFile, file)
 		n.ID = len(p.Nodes)
 	}
-	walk(p.Root)
+	walk(p.Root, "(main)")
+	roots := map[string]int{}
+	for _, m := range p.Modules {
+		m.Prog.Root = Blk(m.Prog.Stmts...)
+		m.Prog.Root.T = "top"
+		walk(m.Prog.Root, m.Name)
+		roots[m.Name] = m.Prog.Root.ID
+	}
+	for _, n := range p.Nodes {
+		if n.T == "imp" {
+			n.IV = int64(roots[n.Name])
+		}
+	}
 }
+
+var stdModules = map[string]bool{"math": true, "os": true, "text": true, "times": true, "rand": true, "fmt": true,
+	"json": true, "base64": true, "hex": true, "enum": true}
 
 func id(n *Node) int {
 	if n == nil {
@@ -247,6 +268,7 @@ func (p *Program) Table() []map[string]interface{} {
 			m["body"] = id(n.Body)
 		case "imp":
 			m["name"] = n.Name
+			m["std"] = stdModules[n.Name]
 			m["root"] = n.IV // node id of the module body ("top" node) after merging, 0 = not a source module
 		case "err", "imm", "expr", "exp":
 			m["e"] = id(n.E)
@@ -620,16 +642,17 @@ func (p *Program) Export() map[string]interface{} {
 	if p.Src == "" {
 		p.Print()
 	}
+	mods := make([]interface{}, 0)
+	for _, m := range p.Modules {
+		if m.Prog.Src == "" {
+			m.Prog.Print()
+		}
+		mods = append(mods, map[string]interface{}{"name": m.Name, "src": m.Prog.Src})
+	}
 	p.Number()
 	ins := make([][]interface{}, 0, len(p.Inputs))
 	for _, in := range p.Inputs {
 		ins = append(ins, []interface{}{in.Name, in.V})
-	}
-	mods := make([]interface{}, 0)
-	for _, m := range p.Modules {
-		me := m.Prog.Export()
-		me["name"] = m.Name
-		mods = append(mods, me)
 	}
 	ext := make([][]int, 0, len(p.Nodes))
 	for _, n := range p.Nodes {
@@ -637,7 +660,7 @@ func (p *Program) Export() map[string]interface{} {
 	}
 	out := map[string]interface{}{
 		"id": p.ID, "src": p.Src, "nodes": p.Table(), "root": p.Root.ID,
-		"inputs": ins, "mods": mods, "ext": ext,
+		"inputs": ins, "mods": mods, "ext": ext, "nodefile": p.nodeFile,
 	}
 	for k, v := range p.Meta {
 		out[k] = v
